@@ -26,7 +26,6 @@ import itertools
 
 import numpy as np
 
-import virocon
 from virocon import (
     AndContour,
     DependenceFunction,
@@ -416,8 +415,6 @@ def gen_model_pairs(rng, thorough):
         for (i, ca, aa), (j, cb, ab) in itertools.combinations(inst, 2):
             if i == j and (ca == cb or {ca, cb} & {"first_conditional"} or (ca.startswith("cond_on") and cb.startswith("cond_on"))):
                 continue  # the second would overwrite the first
-            if i == j and "no_distribution" in (ca, cb) and {ca, cb} & {"both_fixed_and_dependent", "neither_fixed_nor_dependent", "unknown_param"} == set():
-                pass
             if i == j and "cond_without_params" in (ca, cb) and {ca, cb} & {"both_fixed_and_dependent", "neither_fixed_nor_dependent", "unknown_param"}:
                 continue  # needs the parameters dict that the other one removes
             q += 1
